@@ -711,7 +711,7 @@ class SimNinja:
             except OSError:
                 pass
             pid = zygote.launch(
-                argv, bdir, env,
+                argv, bdir, w.launch_env(env),
                 os.devnull if lf else self.step_log,
                 fault=lf, trace=None if lf else self.trace, proc=e.outs[0],
                 readdir_seed=self.readdir_seed,
